@@ -1403,7 +1403,7 @@ fn main() {
     let (seed, tier) = (args.seed, args.tier);
     let g = grid(tier);
     let n_grid = g.len() * CFGS.len();
-    let n_rand = tier.pick(30_000usize, 2_400_000usize);
+    let n_rand = tier.pick(150_000usize, 2_400_000usize);
     rep.set_extra("grid_jobs", json!(n_grid));
     rep.set_extra("random_jobs", json!(n_rand));
     let results = run_cases(n_grid + n_rand, args.threads, |i| {
